@@ -240,13 +240,19 @@ class Gen:
             r = self.rng.random()
             kinds.append('hier' if (r < 0.4 and depth < self.max_depth) else 'cross' if r < 0.48 else 'block')
         groups = []     # (is_hier_like, [xml])
+        prev_blocks = []
         for k in kinds:
-            if k == 'hier':
+            if k == 'block' and prev_blocks and self.rng.random() < 0.3:
+                # the same block again (a proviso repeated after each section): runs that are equal as values
+                import copy
+                l, x = self.rng.choice(prev_blocks); x = copy.deepcopy(x); hl = False
+            elif k == 'hier':
                 l, x = self.hier(ind + 1, depth + 1); hl = True
             elif k == 'cross':
                 ct, cx = self.inlines(1, False); l, x = [sp + '  CROSSHEADING ' + ct], [E('crossHeading', None, *cx)]; hl = True
             else:
                 l, x = self.block(ind + 1, depth + 1); hl = False
+                if not any('FOOTNOTE' in ln for ln in l): prev_blocks.append((l, x))
             lines += l
             if groups and groups[-1][0] == hl: groups[-1][1].extend(x)
             else: groups.append((hl, list(x)))
